@@ -40,4 +40,9 @@ macro_rules! sendonly {
     $t
   };
 }
+macro_rules! two_c {
+  ($flag:expr, $l:expr, $t:expr) => {
+    cbx($t)
+  };
+}
 include!("build_body.rs");
